@@ -1,5 +1,5 @@
 """property id -> units and reporting metadata (single source for MANIFEST.json)"""
-from units import specificity, best, fragments, static_list, hashing, vptrs, resolve, generator, handlers
+from units import specificity, best, fragments, static_list, hashing, vptrs, resolve, generator, handlers, virtual_ptr
 
 A_TABLES = ('compiler::build_dispatch_tables (grouping of classes by applicability mask, strides, recursion order) '
             'and assign_slots / assign_tree_slots / assign_lattice_slots are NOT under contract '
@@ -91,6 +91,14 @@ PROPS = {
         'level': 'proof',
         'technique': 'TBD', 'level_text': 'TBD', 'level_note': 'TBD',
         'design_ref': 'DESIGN.md section 6 C02',
+        'unverified': [],
+        'assumptions': [],
+    },
+    'C09': {
+        'units': [virtual_ptr.jobs, resolve.jobs, vptrs.jobs],
+        'level': 'proof',
+        'technique': 'TBD', 'level_text': 'TBD', 'level_note': 'TBD',
+        'design_ref': 'DESIGN.md section 6 C09',
         'unverified': [],
         'assumptions': [],
     },
